@@ -204,6 +204,13 @@ def rerun_tag(s2, c0, c1, c2):
     def body(s2, c0, c1, c2):
         sc = scenario(s2, c0, c1, c2)
         sc['delays'] = [1, 0, 2]
+        if PIN.get('reuse_planner'):
+            # real workflow files parsed by the real planner; the second Simulation is given the first one's planning object
+            sc['real_wf'] = True
+            first = simh.run_public(sc, [PIN.get('T', 24)])
+            a = simh.outputs(first)
+            b = simh.outputs(simh.run_public(dict(sc, _model=first.planner.model), [PIN.get('T', 24)]))
+            return None if a == b else 'C10/second-run-with-the-same-planning-object-differs'
         a = simh.outputs(simh.run_public(sc, [PIN.get('T', 24)]))
         b = simh.outputs(simh.run_public(sc, [PIN.get('T', 24)]))
         return None if a == b else 'C10/second-run-differs'
@@ -261,6 +268,8 @@ def shards(tier, prop):
     # workflow node names that are strings sharing their trailing number ('cal_1', 'img_1'): any key derived from a part of the id ties
     out.append({'fn': 'order', 'pin': {'alg': 'batch', 'shape': 'free', 'machines': [10, 20, 30, 40], 'scale': 30, 'labels': ['cal_1', 'img_1', 'cal_2']}, 'cond_timeout': T})
     out.append({'fn': 'order', 'pin': {'alg': 'queue', 'shape': 'free', 'machines': [10, 20, 30], 'labels': ['cal_1', 'img_1', 'cal_2']}, 'cond_timeout': T})
+    # the same planning object used for a second simulation of the same configuration (real workflow files, real parser)
+    out += [{'fn': 'rerun', 'pin': {'alg': a, 'shape': 'fork', 'reuse_planner': True}, 'cond_timeout': T} for a in ('queue', 'batch')]
     # the planner carries its own seeded delay model (copied per task); string hashes salted differently in the two runs
     out.append({'fn': 'order', 'pin': {'alg': 'queue', 'shape': 'fork', 'seed_delay': 20}, 'cond_timeout': T})
     out.append({'fn': 'order', 'pin': {'alg': 'batch', 'shape': 'join', 'seed_delay': 7}, 'cond_timeout': T})
